@@ -23,6 +23,8 @@ import (
 	"errors"
 	"fmt"
 	"math"
+	"runtime"
+	"runtime/debug"
 	"sort"
 	"strings"
 	"sync"
@@ -57,12 +59,17 @@ const (
 	vfC17BugVerReset = 1 << iota // unversioned publish reset the held version
 	vfC17BugSupTTL               // version-suppressed publish refreshed history/meta TTL
 	vfC17BugCollide              // idempotency result shared between different channels (cache key ch+"_"+key)
+	vfC17BugSinceWrap            // forward History since offset 2^64-1 returned the stream from its start
+	vfC17BugMax = vfC17BugSinceWrap
 )
 
+const vfC17KeySinceWrap = "C17:since-maxuint64-wraps-to-stream-start"
+
 type vfC17Policy struct {
-	VerReset int
-	SupTTL   int
-	Collide  int
+	VerReset  int
+	SupTTL    int
+	Collide   int
+	SinceWrap int
 }
 
 type vfC17Cfg struct {
@@ -260,26 +267,49 @@ func vfC17Dedupe(ws []*vfC17World) []*vfC17World {
 }
 
 // vfC17SweepChan returns the possible states of one channel at time nowMs given the once-per-second expiry and
-// meta-removal sweeps: an item due at second P may be handled any time in [P, P+slack).
+// meta-removal sweeps. Exp/Rm are the latest deadlines (seconds); ExpQ/RmQ are the times at which the broker next
+// looks at the channel (see vfC17Chan). Allowed behaviours:
+//   - nothing expires strictly before the latest deadline;
+//   - an item due at second P may be handled any time in [P, P+slack) and certainly from P+slack on;
+//   - when a later publish/read SHORTENED the deadline below the queued time, the broker currently honours it only
+//     when the older item fires (retention longer than the TTL). The statement does not ask for that, so expiry is
+//     allowed from the shortened deadline on and required only from the queued time + slack on.
 func vfC17SweepChan(c vfC17Chan, nowMs int64) []vfC17Chan {
-	// history TTL
+	expire := func(x vfC17Chan) vfC17Chan { // stream content dropped; top, epoch and version stay
+		x.ExpHas = false
+		if len(x.List) > 0 {
+			x.List = nil
+			x.EvExpire = true
+		}
+		return x
+	}
+	discard := func(x vfC17Chan) vfC17Chan { // metadata discarded: everything about the stream is forgotten
+		x.RmHas = false
+		if x.Exists {
+			x.EvMeta = true
+		}
+		x.Exists, x.Epoch, x.Top, x.List, x.Ver, x.VerEpoch = false, "", 0, nil, 0, ""
+		return x
+	}
 	var afterExp []vfC17Chan
 	cur := c
 	for {
-		if !cur.ExpHas || nowMs < cur.ExpQ*1000 {
+		if !cur.ExpHas {
 			afterExp = append(afterExp, cur)
 			break
 		}
-		if nowMs < (cur.ExpQ+vfC17Slack)*1000 {
-			afterExp = append(afterExp, cur) // not handled yet
-		}
-		if cur.Exp <= cur.ExpQ { // deadline reached: stream content dropped, top/epoch/version stay
-			cur.ExpHas = false
-			if len(cur.List) > 0 {
-				cur.List = nil
-				cur.EvExpire = true
-			}
+		if nowMs < cur.ExpQ*1000 { // queued item not due yet
 			afterExp = append(afterExp, cur)
+			if nowMs >= cur.Exp*1000 { // shortened deadline already passed
+				afterExp = append(afterExp, expire(cur))
+			}
+			break
+		}
+		if nowMs < (cur.ExpQ+vfC17Slack)*1000 {
+			afterExp = append(afterExp, cur) // due, not handled yet
+		}
+		if cur.Exp <= cur.ExpQ {
+			afterExp = append(afterExp, expire(cur))
 			break
 		}
 		cur.ExpQ = cur.Exp // refreshed meanwhile: re-armed with the newer deadline
@@ -288,20 +318,22 @@ func vfC17SweepChan(c vfC17Chan, nowMs int64) []vfC17Chan {
 	for _, c2 := range afterExp {
 		cur := c2
 		for {
-			if !cur.RmHas || nowMs < cur.RmQ*1000 {
+			if !cur.RmHas {
 				out = append(out, cur)
+				break
+			}
+			if nowMs < cur.RmQ*1000 {
+				out = append(out, cur)
+				if nowMs >= cur.Rm*1000 {
+					out = append(out, discard(cur))
+				}
 				break
 			}
 			if nowMs < (cur.RmQ+vfC17Slack)*1000 {
 				out = append(out, cur)
 			}
-			if cur.Rm <= cur.RmQ { // metadata discarded: everything about the stream is forgotten
-				cur.RmHas = false
-				if cur.Exists {
-					cur.EvMeta = true
-				}
-				cur.Exists, cur.Epoch, cur.Top, cur.List, cur.Ver, cur.VerEpoch = false, "", 0, nil, 0, ""
-				out = append(out, cur)
+			if cur.Rm <= cur.RmQ {
+				out = append(out, discard(cur))
 				break
 			}
 			cur.RmQ = cur.Rm
@@ -566,7 +598,23 @@ func vfC17Select(list []vfC17Ent, top uint64, since *StreamPosition, limit int, 
 	return append(out, cand...)
 }
 
-func vfC17History(w *vfC17World, op *vfC17Op, cfg *vfC17Cfg, nowMs int64, since *StreamPosition) vfC17Branch {
+func vfC17History(w *vfC17World, op *vfC17Op, cfg *vfC17Cfg, nowMs int64, since *StreamPosition) []vfC17Branch {
+	br := vfC17History1(w, op, cfg, nowMs, since)
+	res := []vfC17Branch{br}
+	if cfg.Policy.SinceWrap != vfC17Strict && since != nil && !op.Reverse && since.Offset == math.MaxUint64 && br.Out.Err != "bad_request" {
+		// known finding: since.Offset+1 wraps to 0 and the broker answers as if no position had been given
+		w2 := br.W.clone()
+		if cfg.Policy.SinceWrap == vfC17Flagged {
+			w2.Bugs |= vfC17BugSinceWrap
+		}
+		out := br.Out
+		out.Pubs = vfC17Select(w2.Ch[op.Ch].List, 0, nil, op.Limit, false)
+		res = append(res, vfC17Branch{w2, out})
+	}
+	return res
+}
+
+func vfC17History1(w *vfC17World, op *vfC17Op, cfg *vfC17Cfg, nowMs int64, since *StreamPosition) vfC17Branch {
 	if op.ViaNode && op.Reverse && since != nil && since.Offset == 0 {
 		return vfC17Branch{w, vfC17Out{Err: "bad_request"}} // Node.History rejects it before reaching the broker
 	}
@@ -646,6 +694,43 @@ func vfC17Ents(pubs []*Publication) []vfC17Ent {
 	return out
 }
 
+// vfC17Nodes: one never-started Node per Config.HistoryMetaTTL value, created OUTSIDE the bubbles and reused by all
+// cases (New allocates ~3x4096 mutexes and a metrics registry; a Node that is not Run owns no goroutine or timer, and
+// History/RemoveHistory only touch counters). Every case gets a fresh MemoryBroker.
+var vfC17Nodes = map[int]*Node{}
+
+func vfC17Node(defMeta int) (*Node, error) {
+	if n, ok := vfC17Nodes[defMeta]; ok {
+		return n, nil
+	}
+	n, err := New(Config{HistoryMetaTTL: time.Duration(defMeta) * time.Second})
+	if err == nil {
+		vfC17Nodes[defMeta] = n
+	}
+	return n, err
+}
+
+// vfC17Bubble is vfBubble without the two GC cycles: the memory brokers use time.After / time.NewTimer directly,
+// never the pooled timers of internal/timers, and the Node is not running.
+func vfC17Bubble(t *testing.T, f func() string) (verdict string) {
+	var out string
+	defer func() {
+		if r := recover(); r != nil { // synctest panics here when the bubble deadlocks
+			buf := make([]byte, 1<<18)
+			verdict = fmt.Sprintf("BUBBLE-PANIC: %v\n%s", r, buf[:runtime.Stack(buf, true)])
+		}
+	}()
+	synctest.Test(t, func(*testing.T) {
+		defer func() {
+			if r := recover(); r != nil {
+				out = fmt.Sprintf("PANIC: %v\n%s", r, debug.Stack())
+			}
+		}()
+		out = f()
+	})
+	return out
+}
+
 // vfC17Exec runs ops against a fresh MemoryBroker in a bubble, in lock-step with the world set.
 func vfC17Exec(t *testing.T, cfg vfC17Cfg, ops []vfC17Op) vfC17Res {
 	res := vfC17Res{BugHits: map[int]string{}}
@@ -655,11 +740,12 @@ func vfC17Exec(t *testing.T, cfg vfC17Cfg, ops []vfC17Op) vfC17Res {
 			ops = append(ops[:len(ops):len(ops)], vfC17Op{Kind: vfC17OpHistory, Ch: ci, Limit: -1})
 		}
 	}
-	res.Verdict = vfBubble(t, func() string {
-		node, err := New(Config{HistoryMetaTTL: time.Duration(cfg.DefMetaTTL) * time.Second})
-		if err != nil {
-			return "INTERNAL: New: " + err.Error()
-		}
+	node, err := vfC17Node(cfg.DefMetaTTL)
+	if err != nil {
+		res.Verdict = "INTERNAL: New: " + err.Error()
+		return res
+	}
+	res.Verdict = vfC17Bubble(t, func() string {
 		broker, err := NewMemoryBroker(node, MemoryBrokerConfig{})
 		if err != nil {
 			return "INTERNAL: NewMemoryBroker: " + err.Error()
@@ -830,7 +916,7 @@ func vfC17Exec(t *testing.T, cfg vfC17Cfg, ops []vfC17Op) vfC17Res {
 				case vfC17OpPublish:
 					brs = vfC17Publish(w.clone(), op, &cfg, nowMs)
 				case vfC17OpHistory:
-					brs = []vfC17Branch{vfC17History(w.clone(), op, &cfg, nowMs, since)}
+					brs = vfC17History(w.clone(), op, &cfg, nowMs, since)
 				case vfC17OpRemove:
 					w2 := w.clone()
 					c := &w2.Ch[op.Ch]
@@ -866,8 +952,9 @@ func vfC17Exec(t *testing.T, cfg vfC17Cfg, ops []vfC17Op) vfC17Res {
 			if len(worlds) > res.MaxW {
 				res.MaxW = len(worlds)
 			}
-			if len(worlds) > 5000 {
-				return fmt.Sprintf("INTERNAL: world explosion (%d) at step %d", len(worlds), i)
+			if len(worlds) > 4000 { // never observed; give up on the case rather than report a harness limit as a violation
+				labels["aborted:too-many-worlds"] = true
+				return ""
 			}
 			if hasPos && act.Epoch != "" {
 				seen[act.Epoch] = true
@@ -883,7 +970,7 @@ func vfC17Exec(t *testing.T, cfg vfC17Cfg, ops []vfC17Op) vfC17Res {
 			for _, w := range worlds {
 				common &= w.Bugs
 			}
-			for bit := 1; bit <= vfC17BugCollide; bit <<= 1 {
+			for bit := 1; bit <= vfC17BugMax; bit <<= 1 {
 				if common&bit != 0 && reported&bit == 0 {
 					reported |= bit
 					res.BugHits[bit] = fmt.Sprintf("step %d %s observed %s", i, op.render(cfg.Chans), act.String())
@@ -926,6 +1013,16 @@ func vfC17Exec(t *testing.T, cfg vfC17Cfg, ops []vfC17Op) vfC17Res {
 		if len(worlds) > 1 {
 			labels["end:ambiguous-worlds"] = true
 		}
+		switch {
+		case res.MaxW <= 2:
+			labels["worlds:max<=2"] = true
+		case res.MaxW <= 8:
+			labels["worlds:max<=8"] = true
+		case res.MaxW <= 64:
+			labels["worlds:max<=64"] = true
+		default:
+			labels["worlds:max>64"] = true
+		}
 		return ""
 	})
 	for l := range labels {
@@ -938,18 +1035,19 @@ func vfC17Exec(t *testing.T, cfg vfC17Cfg, ops []vfC17Op) vfC17Res {
 // ---------------------------------------------------------------------------------------------------------------
 // generator
 
-func vfC17Gen(rt *rapid.T) (vfC17Cfg, []vfC17Op) {
+func vfC17Gen(rt *rapid.T, sinceWrap int) (vfC17Cfg, []vfC17Op) {
 	cfg := vfC17Cfg{
 		Chans:      []string{"s1", "s2"}[:rapid.IntRange(1, 2).Draw(rt, "nch")],
 		DefMetaTTL: rapid.SampledFrom([]int{0, 0, 6, 12}).Draw(rt, "defMeta"),
 		// the idempotency/version clauses are C19's: here an unversioned publish may or may not reset the version
-		Policy: vfC17Policy{VerReset: vfC17Either, SupTTL: vfC17Either, Collide: vfC17Strict},
+		Policy:    vfC17Policy{VerReset: vfC17Either, SupTTL: vfC17Either, Collide: vfC17Strict, SinceWrap: sinceWrap},
+		FinalRead: true,
 	}
 	maxOps := 24
 	if vfThorough() {
 		maxOps = 36
 	}
-	n := rapid.IntRange(3, maxOps).Draw(rt, "nops")
+	n := rapid.IntRange(4, maxOps).Draw(rt, "nops")
 	ops := make([]vfC17Op, 0, n)
 	for i := 0; i < n; i++ {
 		op := vfC17Op{Ch: rapid.IntRange(0, len(cfg.Chans)-1).Draw(rt, "ch")}
@@ -973,10 +1071,10 @@ func vfC17Gen(rt *rapid.T) (vfC17Cfg, []vfC17Op) {
 			op.Kind = vfC17OpHistory
 			if rapid.IntRange(0, 9).Draw(rt, "hasSince") < 6 {
 				op.HasSince = true
-				op.SinceMode = rapid.SampledFrom([]int{0, 1, 1, 1}).Draw(rt, "sinceMode")
+				op.SinceMode = rapid.SampledFrom([]int{0, 0, 0, 0, 0, 1, 1, 1, 1, 1, 1, 1, 1, 1, 1, 1, 1, 1, 1, 2}).Draw(rt, "sinceMode")
 				if op.SinceMode == 0 {
 					op.SinceArg = rapid.IntRange(0, 8).Draw(rt, "sinceAbs")
-				} else {
+				} else if op.SinceMode == 1 {
 					op.SinceArg = rapid.IntRange(-4, 2).Draw(rt, "sinceRel")
 				}
 				op.EpochKind = rapid.SampledFrom([]int{0, 0, 0, 1, 2, 2}).Draw(rt, "epochKind")
@@ -999,9 +1097,17 @@ func vfC17Gen(rt *rapid.T) (vfC17Cfg, []vfC17Op) {
 
 func TestVF_C17(t *testing.T) {
 	vfCheck(t, "C17", func(rt *rapid.T, c *vfCase) string {
-		cfg, ops := vfC17Gen(rt)
-		c.Describe(vfC17Render(cfg, ops))
+		sinceWrap := vfC17Strict
+		if c.IsKnown(vfC17KeySinceWrap) {
+			sinceWrap = vfC17Flagged
+		}
+		cfg, ops := vfC17Gen(rt, sinceWrap)
+		desc := vfC17Render(cfg, ops)
+		c.Describe(desc)
 		res := vfC17Exec(t, cfg, ops)
+		if ex, ok := res.BugHits[vfC17BugSinceWrap]; ok {
+			c.Known(vfC17KeySinceWrap, ex+" in "+desc)
+		}
 		for _, l := range res.Labels {
 			c.Label(l)
 		}
